@@ -15,6 +15,7 @@ import (
 	"sort"
 	"strings"
 	"sync"
+	"sync/atomic"
 	"time"
 
 	"github.com/mdzio/go-mqtt/message"
@@ -33,6 +34,8 @@ type clientCore struct {
 	armed bool
 	pendingBarrierPongs int
 	pingsSent int
+	episode int // connects so far: every Connect uses its own client id (see connect)
+	stopTarget int64 // value of clientStops once the current client has been torn down
 	inWin chan struct{}
 	relse chan struct{}
 }
@@ -42,7 +45,21 @@ func init() {
 	gens["client"] = genClient
 }
 
+// clientStops counts completed service.stop calls (verif hook at the end of stop).
+var clientStops int64
+
 func (c *clientCore) install() {
+	// service.stop ends with topics.Unregister (a process-global, unsynchronised map) and may still be
+	// running in the client's receiver goroutine when Client.Disconnect has already returned (the
+	// second caller of stop returns at once): teardown waits for the hook before the next Connect
+	// registers its provider.
+	prev := service.VerifOnStopped
+	service.VerifOnStopped = func(conn io.Closer) {
+		atomic.AddInt64(&clientStops, 1)
+		if prev != nil {
+			prev(conn)
+		}
+	}
 	service.VerifAckWindow = func(conn io.Closer, kind string) {
 		c.mu.Lock()
 		armed := c.armed
@@ -200,6 +217,10 @@ func (c *clientCore) teardown() {
 		select {
 		case <-done:
 		case <-time.After(3 * time.Second):
+		}
+		// … and for the teardown itself (it may run in the client's own goroutine)
+		for deadline := time.Now().Add(3 * time.Second); atomic.LoadInt64(&clientStops) < c.stopTarget && time.Now().Before(deadline); {
+			time.Sleep(200 * time.Microsecond)
 		}
 	}
 	if c.ln != nil {
@@ -427,15 +448,17 @@ func (c *clientCore) handle(ws []string) string {
 		cln := &service.Client{}
 		msg := message.NewConnectMessage()
 		msg.SetVersion(4)
-		// a fresh client id per connection: Client.Connect registers a topics provider under the
-		// client id and panics if a previous client with that id has not been torn down completely
-		clientSeq++
-		msg.SetClientID([]byte(fmt.Sprintf("subject%d", clientSeq)))
+		// service.Client.Connect registers a topics provider under the client id in a process-global
+		// registry and panics on a duplicate; a previous episode's Disconnect that is still running
+		// (teardown waits at most 3 s) must not make this Connect panic: one id per Connect.
+		c.episode++
+		msg.SetClientID([]byte(fmt.Sprintf("subject%d", c.episode)))
 		msg.SetCleanSession(true)
 		msg.SetKeepAlive(300)
 		err = cln.Connect("tcp://"+ln.Addr().String(), msg)
 		conn := <-accepted
 		if err == nil {
+			c.stopTarget = atomic.LoadInt64(&clientStops) + 1
 			c.cln, c.peer = cln, conn
 			c.rd = &peerReader{}
 			c.rd.cond = sync.NewCond(&c.rd.mu)
